@@ -9,6 +9,7 @@ import (
 	"path/filepath"
 	"runtime/debug"
 	"strings"
+	"sync"
 	"time"
 
 	"github.com/pegnet/pegnetd/config"
@@ -23,9 +24,47 @@ import (
 
 type exitSentinel struct{ code int }
 
+// errHook captures the daemon's error-level log lines (the only place the
+// reason of a failed block attempt is visible).
+type errHook struct{}
+
+var (
+	errMu    sync.Mutex
+	errLines []string
+)
+
+func (errHook) Levels() []log.Level {
+	return []log.Level{log.ErrorLevel, log.FatalLevel, log.PanicLevel}
+}
+func (errHook) Fire(e *log.Entry) error {
+	errMu.Lock()
+	defer errMu.Unlock()
+	line := e.Message
+	if err, ok := e.Data[log.ErrorKey]; ok {
+		line += fmt.Sprintf(": %v", err)
+	}
+	if h, ok := e.Data["height"]; ok {
+		line = fmt.Sprintf("[h=%v] %s", h, line)
+	}
+	if len(errLines) < 2000 {
+		errLines = append(errLines, line)
+	}
+	return nil
+}
+
+// TakeErrors returns and clears the captured daemon error lines.
+func TakeErrors() []string {
+	errMu.Lock()
+	defer errMu.Unlock()
+	out := errLines
+	errLines = nil
+	return out
+}
+
 func init() {
 	log.SetOutput(io.Discard)
-	log.SetLevel(log.PanicLevel)
+	log.SetLevel(log.ErrorLevel)
+	log.AddHook(errHook{})
 	log.StandardLogger().ExitFunc = func(code int) { panic(exitSentinel{code}) }
 }
 
@@ -53,6 +92,7 @@ func ApplyConfig(c world.Config) {
 	config.OPRChain = world.OPRChain
 	config.SPRChain = world.SPRChain
 	config.TransactionChain = world.TxChain
+	WALObserver = c.WAL
 	if c.AveragePeriod > 0 {
 		node.AveragePeriod = c.AveragePeriod
 		node.AverageRequired = c.AveragePeriod / 2
@@ -114,17 +154,19 @@ func (r *Replica) conf() *viper.Viper {
 	v.Set(config.Server, "http://factomd.sim/v2")
 	v.Set(config.DBlockSyncRetryPeriod, time.Duration(r.W.Spec.Config.RetryMS)*time.Millisecond)
 	v.Set(config.SQLDBWalMode, r.W.Spec.Config.WAL)
-	v.Set(config.CustomSQLDBMode, "")
+	// lock waits: nothing else runs while a goroutine waits inside SQLite, so a
+	// 5 s wait and a 1 ms wait end the same way; do not burn real time on it
+	v.Set(config.CustomSQLDBMode, "_busy_timeout=1")
 	v.Set(config.DisableHardForkCheck, r.DisableForks)
 	return v
 }
 
 func (r *Replica) dsn() string {
-	d := r.DBFile()
+	d := r.DBFile() + "?"
 	if r.W.Spec.Config.WAL {
-		d += "?_journal=WAL&"
+		d += "_journal=WAL&"
 	}
-	return d
+	return d + "_busy_timeout=1"
 }
 
 // Start begins a new process lifetime: the real node constructor runs on the
